@@ -339,7 +339,9 @@ Definition bytes_of (ops : list pop) : list Z := flat_map bytes_of_op ops.
 (* result contents: the first n bytes of the live block at address a, in order *)
 Definition contents (h : heap) (a n : Z) : list Z :=
   match live h a with
-  | Some b => rev_append (take_known n (b_known b) (b_data b)) []   (* = rev, linear time *)
+  | Some b => if (0 <=? n) && (n <=? b_size b)
+              then rev_append (take_known n (b_known b) (b_data b)) []   (* = rev, linear time *)
+              else []
   | None => []
   end.
 
